@@ -582,7 +582,11 @@ func runC09(c *run.Ctx) {
 	case 0, 1: // list
 		var w *world.World
 		exposure := fam == 0
-		if exposure {
+		if exposure && c.Idx%33 == 0 {
+			// nothing is exposed: the exposure part of every format is empty while the plain part holds workload and address lines
+			w = world.GenSealedWorld(g)
+			r.Ev("sealed_worlds_under_exposure", 1)
+		} else if exposure {
 			w = genExposureWorld(g, false)
 			if g.P(0.4) {
 				world.AddCanonStress(g, w)
@@ -622,6 +626,20 @@ func runC09(c *run.Ctx) {
 		}
 	default: // diff
 		wa, _ := genDiffBase(g)
+		if gi := c.R("icname"); gi.P(0.15) && len(wa.Workloads) > 0 {
+			// a REAL workload that happens to be called ingress-controller (a common Deployment name) is a workload like any other
+			taken := false
+			for i := range wa.Workloads {
+				taken = taken || wa.Workloads[i].Name == "ingress-controller"
+			}
+			if !taken {
+				x := &wa.Workloads[gi.Intn(len(wa.Workloads))]
+				if x.Kind != world.KOwnedPods {
+					x.Name = "ingress-controller"
+					r.Ev("diff_worlds_with_a_real_workload_named_ingress_controller", 1)
+				}
+			}
+		}
 		wb := wa
 		edits := []string{}
 		for n := g.Range(1, 3); n > 0; n-- {
